@@ -62,7 +62,8 @@ func ErrAlreadyExists(r resource.Reference) error {
 // ErrVersionConflict generates error compatible with state.ErrConflict.
 func ErrVersionConflict(r resource.Reference, expected, found resource.Version) error {
 	return eConflict{
-		error: fmt.Errorf("resource %s update conflict: expected version %q, actual version %q", r, expected, found),
+		error:    fmt.Errorf("resource %s update conflict: expected version %q, actual version %q", r, expected, found),
+		resource: r,
 	}
 }
 
